@@ -23,7 +23,7 @@ let render_obs = function
   | OGood a -> Printf.sprintf "G%d" (iz a)
   | OTx (l, a, _) -> Printf.sprintf "T%d@%d" (int_of_nat l) (iz a)
   | ODone (l, s) -> Printf.sprintf "D%d=%d" (int_of_nat l) (iz s)
-  | OServers _ -> "rc=0"
+  | OServers _ -> "E"
 
 let render_table (l : server list) =
   if l = [] then "-" else
@@ -76,14 +76,17 @@ let () =
        let slines = List.filter (starts_with "S ") lines in
        let evs = List.filter is_event units in
        let user_labels = Hashtbl.create 16 in
-       let max_fail = ref 0 and n_edits = ref 0 and probes_here = ref 0 and n_q = ref 0 in
+       let max_fail = ref 0 and n_edits = ref 0 and n_edits_inflight = ref 0 and probes_here = ref 0 and n_q = ref 0 in
        (* one event against one implementation line *)
        let do_event u sline =
          incr n_events;
          let (recs, table) = sections sline in
          let r1s = List.filter_map (fun r -> if starts_with "R1=" r then Some (int_of_string (String.sub r 3 (String.length r - 3))) else None) recs in
          let r2s = List.filter_map (fun r -> if starts_with "R2=" r then Some (int_of_string (String.sub r 3 (String.length r - 3))) else None) recs in
-         let vis = List.filter (fun r -> not (starts_with "R1=" r || starts_with "R2=" r)) recs in
+         List.iter (fun r -> if starts_with "Q" r then
+                       (match int_of_string_opt (String.sub r 1 (String.length r - 1)) with
+                        | Some l -> Hashtbl.replace user_labels l () | None -> ())) recs;
+         let vis = List.filter (fun r -> not (starts_with "R1=" r || starts_with "R2=" r || starts_with "Q" r)) recs in
          let r1 = ref r1s in
          let next_choice () =
            { c_rot = zi (match !r1 with x :: _ -> x | [] -> 0); c_probe = zi (match r2s with x :: _ -> x | [] -> 0) } in
@@ -98,7 +101,6 @@ let () =
            match u with
            | "q" ->
              incr n_q;
-             Hashtbl.replace user_labels (int_of_nat !ch.ch_next_label) ();
              (match apply !ch (EvSend (next_choice ())) with Some (c, o) -> Some (c, o, []) | None -> None)
            | "a" | "s" | "r" | "i" ->
              (match head_label () with
@@ -150,17 +152,24 @@ let () =
              (match apply !ch (EvAdvance (zi (int_of_string (String.sub u 1 (String.length u - 1))))) with
               | Some (c, o) -> Some (c, o, []) | None -> None)
            | _ (* e... *) ->
-             if !ch.ch_inflight <> [] then Some (!ch, [], ["skip"])
-             else begin
-               incr n_edits;
-               match apply !ch (EvSetServers (List.map zi (ints_of_csv (String.sub u 1 (String.length u - 1))))) with
-               | Some (c, o) -> Some (c, o, []) | None -> None
-             end in
+             incr n_edits;
+             if !ch.ch_inflight <> [] then incr n_edits_inflight;
+             let cs = List.map (fun x -> { c_rot = zi x; c_probe = zi 0 }) r1s in
+             (match step !ch (EvSetServers (List.map zi (ints_of_csv (String.sub u 1 (String.length u - 1))), cs)) with
+              | Ok (c, o) -> Some (c, o, ["rc=0"])
+              | _ -> None) in
          (match predicted with
           | None -> set_diff (Printf.sprintf "event %s: model step is not Ok" u)
           | Some (c, o, extra) ->
             let mvis = List.map render_obs o @ extra in
-            if mvis <> vis then set_diff (Printf.sprintf "event %s: observations model=[%s] impl=[%s]" u (String.concat " " mvis) (String.concat " " vis))
+            let pinned_note =
+              if u.[0] = 'e' && mvis <> vis then
+                (let cs = List.map (fun x -> { c_rot = zi x; c_probe = zi 0 }) r1s in
+                 match set_servers_pinned pre (List.map zi (ints_of_csv (String.sub u 1 (String.length u - 1)))) cs with
+                 | Ok (_, po) when List.map render_obs po @ ["rc=0"] = vis -> " (= model of the code WITHOUT fixes/C09-stale-servers-unlink-first.patch)"
+                 | _ -> "")
+              else "" in
+            if mvis <> vis then set_diff (Printf.sprintf "event %s: observations model=[%s] impl=[%s]%s" u (String.concat " " mvis) (String.concat " " vis) pinned_note)
             else if render_table c.ch_servers <> table then set_diff (Printf.sprintf "event %s: server table model=[%s] impl=[%s]" u (render_table c.ch_servers) table);
             let fresh = List.length (List.filter (function OTx (_, _, false) -> true | _ -> false) o) in
             n_fresh := !n_fresh + fresh;
@@ -182,7 +191,7 @@ let () =
                (match split_on '=' (String.sub r 1 (String.length r - 1)) with
                 | [l; s] -> Some (ODone (nat_of_int (int_of_string l), zi (int_of_string s)))
                 | _ -> None)
-             else if r = "rc=0" then Some (OServers (List.map zi (ints_of_csv (String.sub u 1 (String.length u - 1)))))
+             else if r = "E" then Some (OServers (List.map zi (ints_of_csv (String.sub u 1 (String.length u - 1)))))
              else None
            with _ -> None) vis in
          List.iter (fun ob ->
@@ -235,7 +244,7 @@ let () =
          else Printf.sprintf "%s-%s-f%s%s%s" (if rot then "rot" else "norot")
              (if nsv <= 1 then "1srv" else if nsv <= 3 then "2-3srv" else "4-8srv")
              (if !max_fail = 0 then "0" else if !max_fail <= 2 then "1-2" else "3+")
-             (if !probes_here > 0 then "-probe" else "") (if !n_edits > 0 then "-edit" else ""));
+             (if !probes_here > 0 then "-probe" else "") (if !n_edits_inflight > 0 then "-editinflight" else if !n_edits > 0 then "-edit" else ""));
     Printf.printf "CASE %d %s\n" k !cls;
     (match !diff with Some d -> Printf.printf "DIFF %d %s\n" k d | None -> ());
     List.iter (fun (kind, s) -> Printf.printf "FAIL %d %s %s\n" k kind s) (List.rev !fails)) cases;
